@@ -31,6 +31,14 @@ CfgsQ3 == {Cfg(OrgAAA, 1, 1, -1, TOnone, {}, {"A"}), Cfg(OrgAAB, 2, 2, -1, TOnon
 CfgsT == { Cfg(o, mc, mk, ex, to, mux, mg) :
              o \in {OrgAAB, OrgABA}, mc \in {1, 2}, mk \in {0, 1}, ex \in {-1, 0, 1},
              to \in {TOnone, TO2, TO0}, mux \in {{}}, mg \in {{}, {"A"}} }
+\* medium product instances (exhaustive in the thorough tier, three slices); the full product
+\* CfgsT is explored by simulation
+CfgsMbase == { Cfg(o, mc, mk, -1, TOnone, {}, mg) :
+                 o \in {OrgAAB, OrgABA}, mc \in {1, 2}, mk \in {0, 1}, mg \in {{}, {"A"}} }
+CfgsMexp  == { Cfg(o, mc, mk, ex, TOnone, {}, {}) :
+                 o \in {OrgAAB, OrgABA}, mc \in {1, 2}, mk \in {0, 1}, ex \in {0, 1} }
+CfgsMto   == { Cfg(o, mc, mk, -1, to, {}, {}) :
+                 o \in {OrgAAB, OrgABA}, mc \in {1, 2}, mk \in {0, 1}, to \in {TO2, TO0} }
 StylesScope == {"scope"}
 StylesBoth == {"scope", "native"}
 DevNative == {"NativeCancelInShield"}
